@@ -26,6 +26,7 @@ sol h0
 binv h0
 write_basis h0 b0 st.bas
 write_prob h0 st.lp LP
+write_prob h0 st.mps MPS
 read_basis h0 b1 st.bas
 change_bound h0 7 U 1
 dump h0
@@ -84,7 +85,11 @@ def tamper_lp_text(evs):
     i = first(e2, "lp_text")
     k = e2[i]["tokens"].index("Subject")
     e2[i]["tokens"][k - 1] = "q" + e2[i]["tokens"][k - 1]
-    return [("one token of the written LP file is changed", "SPEC-DRIFT", pipeline.renumber(e2))]
+    e3 = copy.deepcopy(evs)
+    i = first(e3, "mps_text")
+    e3[i]["tree"]["bounds"] = e3[i]["tree"]["bounds"][:-1]
+    return [("one token of the written LP file is changed", "SPEC-DRIFT", pipeline.renumber(e2)),
+            ("one bound line of the written MPS file is dropped", "SPEC-DRIFT", pipeline.renumber(e3))]
 
 
 def model_mutations(work):
@@ -94,6 +99,7 @@ def model_mutations(work):
     muts = [("the default upper bound ignores the integrality mark", 'DefaultUpper(lo, up, isint) == IF isint /\\ lo = "0" THEN up = "1" ELSE up = "inf"', 'DefaultUpper(lo, up, isint) == up = "inf"', "bounds"),
             ("a lower bound of -inf is always taken as default", 'DefaultLower(lo, up) == (lo = "0" /\\ ~NegS(up)) \\/ (lo = "-inf" /\\ NegS(up))', 'DefaultLower(lo, up) == (lo = "0" /\\ ~NegS(up)) \\/ lo = "-inf"', "bounds"),
             ("the second half of a ranged row repeats the right-hand side", 'row("", "<=", RAdd(L.rhs[i], L.range[i]))', 'row("", "<=", L.rhs[i])', "rowsq"),
+            ("the MPS writer ignores the integrality mark when deciding whether the upper bound is the default", 'pu == ~LW!DefaultUpper(lo, up, L.isint[j] = 1)', 'pu == up # "inf"', "bounds"),
             ("name repair does not look at the names already in use", 'IF (p \\o buf) \\notin table THEN p \\o buf', 'IF TRUE THEN p \\o buf', "namesq")]
     src = os.path.join(ROOT, "spec")
     for k, (name, old, new, fam) in enumerate(muts):
@@ -102,9 +108,12 @@ def model_mutations(work):
         for f in os.listdir(src):
             if f.endswith(".tla") or f.startswith("MC_LPWrite"):
                 shutil.copy(os.path.join(src, f), d)
-        t = open(os.path.join(d, "LPWrite.tla")).read()
-        hit = old in t
-        open(os.path.join(d, "LPWrite.tla"), "w").write(t.replace(old, new, 1))
+        hit = False
+        for mod in ("LPWrite.tla", "MPSWrite.tla"):
+            t = open(os.path.join(d, mod)).read()
+            if old in t:
+                hit = True
+                open(os.path.join(d, mod), "w").write(t.replace(old, new, 1))
         r = subprocess.run([pipeline.TLCX, "-workers", "4", "-metadir", os.path.join(d, "meta"), "-config", "MC_LPWrite_%s.cfg" % fam, "MC_LPWrite.tla"],
                            cwd=d, stdout=subprocess.PIPE, stderr=subprocess.STDOUT, text=True, timeout=900)
         m = re.search(r"Invariant (\w+) is violated", r.stdout)
